@@ -98,6 +98,9 @@ class PathCtx:
         self.n_heavy = 0
         self.last_model = None
         self.check_div = False
+        self.resolve_ite = explorer.resolve_ite
+        self.ite_cache = {}
+        self.merge_exp = explorer.merge_exp
         self.reduce_powers = explorer.reduce_powers
         self.angle_inputs = {}
         self.div_zero = []
@@ -107,6 +110,7 @@ class PathCtx:
         self.inputs = {}          # name -> (kind, z3 const, lo, hi)
         self.fun_atoms = {}
         self.trig_atoms = []
+        self.trig_points = []
         self.angle_info = {}
         self.atan2_done = set()
         self.inv_of = {}
@@ -220,6 +224,24 @@ class PathCtx:
         st.max_atoms = max(st.max_atoms, len(self.atoms))
         if time.time() > self.ex.deadline:
             raise BudgetExceeded("wall-clock budget")
+        return str(r), model
+
+    def check_fresh(self, *extra, rlimit=None):
+        """One-shot query in a fresh solver (z3's nlsat pipeline; no wall-clock timeout
+        parameter, which would select the weaker incremental strategy - bounded by rlimit)."""
+        t0 = time.time()
+        s2 = z3.Solver()
+        s2.set('rlimit', rlimit or self.ex.rlimit * 5)
+        s2.add(self.solver.assertions())
+        for e in extra:
+            s2.add(e)
+        r = s2.check()
+        model = s2.model() if r == z3.sat else None
+        st = self.ex.stats
+        st.solver_s += time.time() - t0
+        st.queries[str(r)] += 1
+        if model is not None:
+            self.last_model = model
         return str(r), model
 
     def assume(self, cond):
@@ -417,9 +439,12 @@ class Explorer:
 
     def __init__(self, max_paths=400, wall_s=120.0, query_timeout_ms=20000, seed=0,
                  want_sample=True, rlimit=4000000, oneshot=False,
-                 light_timeout_ms=5000, reduce_powers=True):
+                 light_timeout_ms=5000, reduce_powers=True, resolve_ite=False,
+                 merge_exp=True):
         self.rlimit = rlimit
         self.reduce_powers = reduce_powers
+        self.resolve_ite = resolve_ite
+        self.merge_exp = merge_exp
         self.light_timeout_ms = light_timeout_ms
         self.oneshot = oneshot
         self.max_paths = max_paths
